@@ -24,6 +24,7 @@ func vfInitLemma() {
 	m := vfBuildMemMap(ne, 130)
 	bootMemAllocator = BootMemAllocator{}
 	bootMemAllocator.init(uintptr(m.kstart), uintptr(m.kend))
+	zzverif.Assert(zzverif.And(uint64(bootMemAllocator.kernelStartFrame) == m.kStartFrame, uint64(bootMemAllocator.kernelEndFrame) == m.kEndFrm), "the frames of the kernel image are identified exactly")
 
 	var taken [8]uint64 // frames handed out by the early allocator (before and during init)
 	nt := 0
